@@ -207,7 +207,7 @@ def _missing_reverse_relation(lex: lmf.Lexicon, ids: _Ids) -> _Result:
     regular.update((ss['id'], r['relType'], r['target'])
                    for ss, r in _synset_relations(lex))
     return {tgt: {'type': REVERSE_RELATIONS[typ], 'target': src}
-            for src, typ, tgt in regular
+            for src, typ, tgt in sorted(regular)
             if typ in REVERSE_RELATIONS
             and (tgt, REVERSE_RELATIONS[typ], src) not in regular}
 
